@@ -87,7 +87,7 @@ Lemma alloc_step n e :
   (forall len, alloc_map_len c s n = Some len -> env_fresh c s len e) ->
   Inv c (k + 1) (st_of (alloc c s n e)) /\ is_stop (res_of (alloc c s n e)) = false.
 Proof.
-  intros H. destruct (alloc_inv c k s n e F I Hk H) as [I' [[R _]| (o & sz & unp & R & _)]]; rewrite R; auto.
+  intros H. destruct (alloc_inv c k s n e F I H) as [I' [[R _]| (o & sz & unp & R & _)]]; rewrite R; auto.
 Qed.
 
 Lemma free_step p sz :
@@ -145,7 +145,7 @@ Proof.
         assert (b0 = b).
         { pose proof (find_blk_in p (live s) b0 (I_live_nodup _ _ _ I) Hb0 Hb0p). congruence. }
         subst b0. apply Hblk; assumption.
-      - destruct (alloc_inv c k s n e F I Hk Henv') as [I1 [[R [S1 _]]| (q & sz & unp & R & L1)]].
+      - destruct (alloc_inv c k s n e F I Henv') as [I1 [[R [S1 _]]| (q & sz & unp & R & L1)]].
         + destruct (alloc c s n e) as [[s1 r] cbs]. cbn in *. subst r s1. cbn. split; [apply Inv_up|reflexivity].
         + destruct (alloc c s n e) as [[s1 r] cbs]. cbn in R, L1, I1. subst r. cbv zeta.
           destruct (move_log_inv c (k + 1) s1 p q I1) as [I2 LP].
